@@ -60,12 +60,9 @@ pub trait Rule: RuleClone + Debug + Send {
             }
             // only a glob can be read back from an escaped rendering
             "glob" if unprintable => format!("{rendered} (escaped) (glob{quantifier})"),
-            "escaped" | "glob" => format!("{rendered} ({kind}{quantifier})"),
-            // all other kinds are read back literally
-            _ => format!(
-                "{} ({kind}{quantifier})",
-                String::from_utf8_lossy(&expression)
-            ),
+            // all other kinds have no escaped form that could be read back: the
+            // printable rendering is for display
+            _ => format!("{rendered} ({kind}{quantifier})"),
         }
     }
 }
